@@ -439,7 +439,9 @@ impl PathBuf {
 }
 #[verifier::external_body]
 #[allow(non_snake_case)]
-fn SST_FILE(root: &Root, setsum: Setsum) -> (r: PathBuf) { unimplemented!() }
+fn SST_FILE(root: &Root, setsum: Setsum) -> (r: PathBuf) ensures r == sst_path_of(*root, setsum.g()) { unimplemented!() }
+// the path sst/<hexdigest>.sst under the root
+uninterp spec fn sst_path_of(root: Root, g: G) -> PathBuf;
 #[verifier::external_body]
 fn duplicate_sst_err(target: &PathBuf) -> (r: SError) { unimplemented!() }
 #[verifier::external_body]
@@ -657,6 +659,73 @@ fn open_init(mani: &mut Manifest) -> (r: Result<(), SError>)
             }
 //@ >>
 //@ end
+
+// opening (LsmTree::list_ssts_from_manifest): one metadata record per string the manifest lists, in order, each read from the
+// file stored under that string's setsum; a listed string that is not a setsum, or a file that cannot be opened, is an error
+#[verifier::external_body]
+struct Hex { _p: u8 }
+uninterp spec fn parse_hex(h: Hex) -> Option<G>;
+// what the final block of the file at a path says
+uninterp spec fn md_at(p: PathBuf) -> SstMetadata;
+#[verifier::external_body]
+struct FileHandle { _p: u8 }
+impl FileHandle { uninterp spec fn path(&self) -> PathBuf; }
+impl Sst { uninterp spec fn path(&self) -> PathBuf; }
+// Setsum::from_hexdigest(h).ok_or_else(|| corruption("setsum invalid")..)
+#[verifier::external_body]
+fn parse_setsum(h: &Hex) -> (r: Result<Setsum, SError>)
+    ensures r is Ok <==> parse_hex(*h) is Some, r is Ok ==> r->Ok_0.g() == parse_hex(*h)->Some_0,
+{ unimplemented!() }
+impl Manifest {
+    uninterp spec fn strs(&self) -> Seq<Hex>;
+    #[verifier::external_body]
+    fn strs_len(&self) -> (r: usize) ensures r == self.strs().len() { unimplemented!() }
+    #[verifier::external_body]
+    fn str_at(&self, i: usize) -> (r: &Hex) requires i < self.strs().len() ensures *r == self.strs()[i as int] { unimplemented!() }
+}
+impl FileManager {
+    #[verifier::external_body]
+    fn open(&self, path: &PathBuf) -> (r: Result<FileHandle, SError>) ensures r is Ok ==> r->Ok_0.path() == *path { unimplemented!() }
+}
+impl Sst {
+    #[verifier::external_body]
+    fn from_file_handle(f: FileHandle) -> (r: Result<Sst, SError>) ensures r is Ok ==> r->Ok_0.path() == f.path() { unimplemented!() }
+    #[verifier::external_body]
+    // Sst::metadata, as this function uses it (the other stub of the same method further down speaks about the setsum only)
+    fn metadata_of_file(&self) -> (r: Result<SstMetadata, SError>) ensures r is Ok ==> r->Ok_0 == md_at(self.path()) { unimplemented!() }
+}
+// the HashSet<Setsum> the function fills and never reads
+#[verifier::external_body]
+struct SetsumSet { _p: u8 }
+impl SetsumSet {
+    #[verifier::external_body]
+    fn new() -> (r: SetsumSet) { unimplemented!() }
+    #[verifier::external_body]
+    fn insert(&mut self, s: Setsum) -> (r: bool) { unimplemented!() }
+}
+impl LsmTree {
+//@ extract lsmtk/src/tree/mod.rs | impl LsmTree :: fn list_ssts_from_manifest
+//@ ret r
+//@ rewrite-re X4 `<P: AsRef<Path>>` => ``
+//@ rewrite-re X4 `root: P,` => `root: &Root,`
+//@ rewrite X13 `for hexdigest in mani.strs() {` => `for si in 0..mani.strs_len() { let hexdigest = mani.str_at(si);`
+//@ rewrite-re X7 `(?s)Setsum::from_hexdigest\(hexdigest\)\.ok_or_else\(\|\| \{.*?\}\)\?;` => `parse_setsum(hexdigest)?;`
+//@ rewrite-re X7 `SST_FILE\(&root, ` => `SST_FILE(root, `
+//@ rewrite-re X7 `\bsst\.metadata\(\)` => `sst.metadata_of_file()`
+//@ rewrite-re? X4 `let mut metadata = vec!\[\];` => `let mut metadata: Vec<SstMetadata> = Vec::new();`
+//@ rewrite-re? X12 `HashSet::new\(\)` => `SetsumSet::new()`
+//@ post <<
+        r is Ok ==> r->Ok_0@.len() == mani.strs().len()
+            && forall|i: int| 0 <= i < mani.strs().len() ==> parse_hex(#[trigger] mani.strs()[i]) is Some
+                && r->Ok_0@[i] == md_at(sst_path_of(*root, parse_hex(mani.strs()[i])->Some_0)),
+//@ >>
+//@ loop `for si in` <<
+        invariant metadata@.len() == si, /* contract-inv */
+            forall|i: int| 0 <= i < si ==> parse_hex(#[trigger] mani.strs()[i]) is Some /* contract-inv */
+                && metadata@[i] == md_at(sst_path_of(*root, parse_hex(mani.strs()[i])->Some_0)), /* contract-inv */
+//@ >>
+//@ end
+}
 
 // opening (LsmTree::from_manifest): the tree rebuilt from the files the manifest lists is accepted only if the sum of its
 // files' setsums is the manifest's recorded output (the digest strings compared name the setsums)
@@ -978,6 +1047,6 @@ fn moving_compaction_core(tree: &LsmTree, version: &Version, compaction: Compact
 //@ >>
 //@ end
 
-//@ min-verified 19
+//@ min-verified 20
 } // verus!
 fn main() {}
